@@ -5,9 +5,27 @@ choices are symbolic and resolved by the harness from its own snapshot list."""
 import random
 
 
+def filter_rules(rng, nkeys, once_keys):
+    """A random deterministic verdict table: RemoveWeak / Destroy only for keys written once."""
+    rules = []
+    for k in range(1, nkeys + 1):
+        acts = ["keep", "remove", "replace", "replace"]
+        if k in once_keys:
+            acts += ["removeweak", "destroy", "destroy"]
+        for vp in rng.choice([[2], [0, 1], [0], [1]]):
+            act = rng.choice(acts)
+            if act != "keep":
+                # +100 keeps the size class of a value, +101 crosses the separation threshold
+                rules.append({"k": k, "vp": vp, "act": act, "to": rng.choice([100, 101])})
+    return rules
+
+
 def behaviour(rng, nkeys, steps, weights, weak_keys=(), vals=97, leveled_params=None,
-              max_snaps=2):
+              max_snaps=2, once_keys=(), filters=False):
     ops = []
+    written_once = set()
+    if filters:
+        ops.append({"op": "_meta", "filter": filter_rules(rng, nkeys, set(once_keys))})
     snaps = 0
     lp = leveled_params or [(1, 1), (2, 1), (2, 150), (3, 400), (4, 2000)]
     kinds = list(weights)
@@ -19,6 +37,13 @@ def behaviour(rng, nkeys, steps, weights, weak_keys=(), vals=97, leveled_params=
         w = rng.choice([0, "safe", "safe"])
         if k == "write":
             key = rng.randint(1, nkeys)
+            if key in once_keys:
+                if key in written_once:
+                    continue
+                written_once.add(key)
+                i += 1
+                ops.append({"op": "write", "items": [{"k": key, "t": "V", "v": (i % vals) + 1}]})
+                continue
             if key in weak_keys:
                 t = "W" if last.get(key) == "V" else "V"
             else:
@@ -27,8 +52,9 @@ def behaviour(rng, nkeys, steps, weights, weak_keys=(), vals=97, leveled_params=
             i += 1
             ops.append({"op": "write", "items": [{"k": key, "t": t, "v": (i % vals) + 1 if t == "V" else 0}]})
         elif k == "batch":
-            ks = sorted(rng.sample([x for x in range(1, nkeys + 1) if x not in weak_keys],
-                                   min(2, nkeys - len(weak_keys))))
+            ks = sorted(rng.sample([x for x in range(1, nkeys + 1)
+                                    if x not in weak_keys and x not in once_keys],
+                                   min(2, nkeys - len(weak_keys) - len(once_keys))))
             items = []
             for key in ks:
                 t = rng.choice(["V", "V", "T"])
@@ -123,3 +149,53 @@ def add_scans(ops, rng, nkeys, prob, burst=2, **kw):
             for _ in range(rng.randint(1, burst)):
                 out.append(scan_op(rng, nkeys, **kw))
     return out
+
+
+def fifo_behaviour(rng, nkeys):
+    """Append-only history as FIFO intends (new keys in increasing order, one flush per 1-2
+    keys at controlled clock times), then FIFO compactions with limits / TTLs given as
+    classes relative to the measured size and the creation times, then reopen."""
+    ops = []
+    t = 1000
+    k = 1
+    times = []
+    i = 0
+    while k <= nkeys:
+        t += rng.choice([0, 1, 5, 10])
+        ops.append({"op": "clock", "t": t})
+        for _ in range(rng.randint(1, 2)):
+            if k > nkeys:
+                break
+            i += 1
+            ops.append({"op": "write", "items": [{"k": k, "t": "V", "v": (i % 97) + 1}]})
+            k += 1
+        ops.append({"op": "rotate"})
+        ops.append({"op": "flush", "w": rng.choice([0, "safe"])})
+        times.append(t)
+        if rng.random() < 0.2 and k <= nkeys:
+            _fifo(ops, rng, t, times)
+    for _ in range(rng.randint(1, 3)):
+        t += rng.choice([0, 3, 20])
+        ops.append({"op": "clock", "t": t})
+        _fifo(ops, rng, t, times)
+    ops.append({"op": "reopen"})
+    return ops
+
+
+def _fifo(ops, rng, now, times):
+    op = {"op": "fifo", "limit": rng.choice(["ge_total", "total_minus_1", "half", "one", "ge_total"]),
+          "w": rng.choice([0, "safe"])}
+    kind = rng.choice(["none", "none", "all", "some", "no"])
+    if kind == "all":
+        op["ttl"] = 1
+    elif kind == "some" and len(times) >= 2:
+        cut = rng.choice(times[:-1])
+        op["ttl"] = max(1, now - cut)
+    elif kind == "no":
+        op["ttl"] = now - min(times) + 1
+    ops.append(op)
+
+
+def fifo_behaviours(seed, count, nkeys):
+    rng = random.Random(seed)
+    return [fifo_behaviour(rng, nkeys) for _ in range(count)]
